@@ -808,6 +808,12 @@ fn gen_read(rng: &mut Rng) -> (String, String) {
             let runs = gen_runs(rng, t, &marks, true);
             (if rng.bool() { runs_to_r(&runs) } else { runs_to_m(&runs) }, "short")
         }
+        3 if rng.chance(1, 2) => {
+            // longer than the rows read (out of the documented domain: error or truncation)
+            let t = total + 1 + rng.usize(6);
+            let runs = gen_runs(rng, t, &marks, false);
+            (if rng.bool() { runs_to_r(&runs) } else { runs_to_m(&runs) }, "long")
+        }
         _ => {
             let (o, _) = gen_operand(rng, total, &marks);
             (o, "exact")
@@ -821,7 +827,7 @@ fn gen_read(rng: &mut Rng) -> (String, String) {
         _ => format!("a{}", *rng.pick(&[0usize, 1, 2, 4, 32, 1000])),
     };
     // predicates
-    let np = *rng.pick(&[0usize, 0, 1, 1, 2, 3]);
+    let np = *rng.pick(&[0usize, 0, 0, 1, 1, 1, 2, 2, 3]);
     let mut preds = vec![];
     let mut pmasks = vec![];
     let mut concat: Vec<usize> = vec![];
@@ -834,7 +840,7 @@ fn gen_read(rng: &mut Rng) -> (String, String) {
         let k = match col {
             "l" => 2 + rng.usize(3),
             "s" => 2 + rng.usize(3),
-            _ => *rng.pick(&[1usize, 2, 3, 5, 10, 1000]),
+            _ => *rng.pick(&[1usize, 2, 2, 3, 3, 5, 10, 1000]),
         };
         let r = if k == 1000 { rng.usize(40) } else { rng.usize(k) };
         let spec = format!("{}{}{}={}", col, if rng.bool() { '%' } else { '#' }, k, r);
@@ -846,8 +852,8 @@ fn gen_read(rng: &mut Rng) -> (String, String) {
     let opt = |rng: &mut Rng, hi: usize| -> String {
         match rng.below(6) {
             0 | 1 | 2 => "-".into(),
-            3 => (*rng.pick(&[0usize, 1, hi, hi + 1, hi.saturating_sub(1)])).to_string(),
-            _ => rng.usize(hi + 2).to_string(),
+            3 => (*rng.pick(&[0usize, 1, 1, 2, hi, hi + 1, hi.saturating_sub(1)])).to_string(),
+            _ => (1 + rng.usize(hi / 3 + 2)).to_string(),
         }
     };
     let off = opt(rng, total / 2 + 1);
@@ -907,8 +913,18 @@ fn main() {
         if let Some(what) = oracle {
             sink.oracle_failure(line.clone(), what, tags);
         }
-        let extra = if a == "ERR:read" { " result:err" } else { "" };
-        sink.case(line, a, &format!("{}{}", tags, extra));
+        // a read that returns nothing is not counted as a non-trivial case
+        let mut tags = tags.to_string();
+        if line.starts_with("C06 read") {
+            if a == "ERR:read" {
+                tags = format!("{} result:err", tags.replace(" nt", ""));
+            } else if a.starts_with("- ") {
+                tags = format!("{} result:empty", tags.replace(" nt", ""));
+            } else {
+                tags.push_str(" result:rows");
+            }
+        }
+        sink.case(line, a, &tags);
     };
     if args.mode == "replay" {
         for line in read_cases(args.replay.as_ref().unwrap()) {
